@@ -285,11 +285,12 @@ def _thms(path, thms):
 
 register(Unit("C01", "mtsp", mc.chunked(mtsp_with_generator_contract(lambda ctx: envcorr.check_feasibility(ctx, MTSP, episodes_quick=40, episodes_thorough=2500))),
               drivers=["drv_mtsp"],
-              lean_modules=["Rl4co.Props.C01.Mtsp"] if _has("Rl4co/Props/C01/Mtsp.lean") else ["Rl4co.Spec.Mtsp"],
+              lean_modules=(["Rl4co.Props.C01.Mtsp"] if _has("Rl4co/Props/C01/Mtsp.lean") else ["Rl4co.Spec.Mtsp"])
+              + (["Rl4co.Proofs.MtspSpec"] if _has("Rl4co/Proofs/MtspSpec.lean") else []),
               theorems=_thms("Rl4co/Props/C01/Mtsp.lean", [
                   Theorem("Rl4co.Mtsp.feasible_of_run", "proved",
                           "every mask-confined finished mTSP episode (padding included) visits every customer exactly "
-                          "once in at most m non-empty tours (any n, any m ≥ 1, any distances)")]),
+                          "once in at most m non-empty tours (any n, any m ≥ 1, any distances)")] + ([Theorem("Rl4co.Mtsp.feasible_exists", "proved", "Spec sanity: every instance with m ≥ 1 has a feasible solution")] if _has("Rl4co/Proofs/MtspSpec.lean") else [])),
               assumptions=[MTSP_NOTE] + ([] if _has("Rl4co/Props/C01/Mtsp.lean") else [NO_THM])))
 register(Unit("C02", "mtsp", mc.chunked(lambda ctx: envcorr.check_termination(ctx, MTSP, episodes_quick=40, episodes_thorough=2500)),
               drivers=["drv_mtsp"],
@@ -297,16 +298,21 @@ register(Unit("C02", "mtsp", mc.chunked(lambda ctx: envcorr.check_termination(ct
               theorems=_thms("Rl4co/Props/C02/Mtsp.lean", [
                   Theorem("Rl4co.Mtsp.mask_nonempty", "proved", "every reachable state (finished or not) offers an action (n ≥ 1)"),
                   Theorem("Rl4co.Mtsp.done_stable", "proved", "done is absorbing under admitted steps"),
-                  Theorem("Rl4co.Mtsp.steps_le", "proved", "an unfinished mask-confined run has at most n + m − 1 ≤ n + m steps")]),
+                  Theorem("Rl4co.Mtsp.steps_le", "proved", "an unfinished mask-confined run has at most n + m − 1 ≤ n + m steps"),
+                        Theorem("Rl4co.Mtsp.steps_le_text", "proved", "… i.e. at most num_loc + num_agents − 2 calls of env.step")]),
               assumptions=[MTSP_NOTE] + ([] if _has("Rl4co/Props/C02/Mtsp.lean") else [NO_THM])))
 register(Unit("C03", "mtsp", mc.chunked(mtsp_check_reward),
               drivers=["drv_mtsp"],
-              lean_modules=["Rl4co.Props.C03.Mtsp"] if _has("Rl4co/Props/C03/Mtsp.lean") else ["Rl4co.Spec.Mtsp"],
+              lean_modules=(["Rl4co.Props.C03.Mtsp"] if _has("Rl4co/Props/C03/Mtsp.lean") else ["Rl4co.Spec.Mtsp"])
+              + (["Rl4co.Proofs.MtspSpec"] if _has("Rl4co/Proofs/MtspSpec.lean") else []),
               theorems=_thms("Rl4co/Props/C03/Mtsp.lean", [
                   Theorem("Rl4co.Mtsp.reward_minmax_eq_objective", "proved",
                           "minmax reward = −(longest closed tour) for every finished mask-confined run, padding steps included"),
                   Theorem("Rl4co.Mtsp.reward_sum_eq_objective", "proved",
-                          "sum reward = −(summed closed tour lengths) for every action list (D 0 0 = 0)")]),
+                          "sum reward = −(summed closed tour lengths) for every action list (D 0 0 = 0)")] + ([
+                  Theorem("Rl4co.Mtsp.objMinmax_le_objSum", "proved", "Spec sanity: longest tour ≤ total length"),
+                  Theorem("Rl4co.Mtsp.objMinmax_perm", "proved", "Spec sanity: minmax objective invariant under renaming the agents (permuting the tours)"),
+                  Theorem("Rl4co.Mtsp.objSum_perm", "proved", "Spec sanity: sum objective invariant under renaming the agents")] if _has("Rl4co/Proofs/MtspSpec.lean") else [])),
               assumptions=[MTSP_NOTE] + ([] if _has("Rl4co/Props/C03/Mtsp.lean") else [NO_THM])))
 register(Unit("C04", "mtsp", mc.chunked(lambda ctx: mc.check_batch_independence(ctx, MTSP, groups_thorough=400)),
               drivers=["drv_mtsp"],
@@ -315,7 +321,9 @@ register(Unit("C04", "mtsp", mc.chunked(lambda ctx: mc.check_batch_independence(
                   Theorem("Rl4co.Mtsp.pad_noop", "proved",
                           "a padding step after done changes neither done, nor the mask, nor the minmax reward"),
                   Theorem("Rl4co.Mtsp.batchStep_eq_map", "proved",
-                          "the batched step with its row-0 first-step flag equals the row-wise step on lock-step batches")]),
+                          "the batched step with its row-0 first-step flag equals the row-wise step on lock-step batches"),
+                  Theorem("Rl4co.Mtsp.batch_rows", "proved", "∀ batch ∀ row: row k of any lock-step batch (mixed num_agents) is stepped exactly as on its own"),
+                  Theorem("Rl4co.Mtsp.batchExec_eq_rows", "proved", "whole episodes: a batched episode is the family of its rows' own episodes")]),
               assumptions=[MTSP_NOTE, "the batched code is compared row-wise against the per-instance model"]
               + ([] if _has("Rl4co/Props/C04/Mtsp.lean") else [NO_THM])))
 register(Unit("C05", "mtsp", mc.chunked(lambda ctx: mc.check_completeness_batched(ctx, MtspCompleteness(), 10, 80)),
@@ -948,7 +956,8 @@ def _mods(path, mod, fallback):
 
 register(Unit("C01", "mdcpdp", mc.chunked(md_check_feasibility), drivers=["drv_mdcpdp"],
               lean_modules=_mods("Rl4co/Props/C01/Mdcpdp.lean", "Rl4co.Props.C01.Mdcpdp", "Rl4co.Spec.Mdcpdp")
-              + (["Rl4co.Props.C03.MdcpdpSim"] if _has("Rl4co/Props/C03/MdcpdpSim.lean") else []),
+              + (["Rl4co.Props.C03.MdcpdpSim"] if _has("Rl4co/Props/C03/MdcpdpSim.lean") else [])
+              + (["Rl4co.Props.C03.MdcpdpFixed", "Rl4co.Proofs.MdcpdpSpec"] if _has("Rl4co/Props/C03/MdcpdpFixed.lean") else []),
               theorems=_thms("Rl4co/Props/C01/Mdcpdp.lean", [
                   Theorem("Rl4co.Mdcpdp.core_of_run", "partial", "every finished mask-confined episode (solo row, well-formed instance): customers exactly once, delivery after its pickup, load within [0, capacity of depot 0] after every prefix, depots entered empty"),
                   Theorem("Rl4co.Mdcpdp.feasible_of_run_counterexample", "proved", "¬ feasible_of_run_statement: the capacity of depot 0 is applied to the vehicle of depot 1"),
@@ -957,7 +966,12 @@ register(Unit("C01", "mdcpdp", mc.chunked(md_check_feasibility), drivers=["drv_m
                   Theorem("Rl4co.Mdcpdp.feasible_of_run_generator_counterexample", "proved", "bundled generator (capacity [B,1], model of the real reset with K = genCapLen G): a finished episode that the problem statement rejects"),
                   Theorem("Rl4co.Mdcpdp.generator_shape_mismatch", "proved", "the generator's capacity width (extracted) ≠ num_depot for more than one depot")] + ([
                   Theorem("Rl4co.Mdcpdp.feasible_of_run_single_depot", "proved", "single depot: every finished mask-confined episode satisfies the FULL problem statement (Spec.Feasible)"),
-                  Theorem("Rl4co.Mdcpdp.verdict_v0_of_run", "proved", "any number of depots: finished episodes satisfy the Spec with exactly the four clauses of v0 switched off (home, own capacity, per-vehicle lengths, last way home)")] if _has("Rl4co/Props/C03/MdcpdpSim.lean") else [])+[]),
+                  Theorem("Rl4co.Mdcpdp.verdict_v0_of_run", "proved", "any number of depots: finished episodes satisfy the Spec with exactly the four clauses of v0 switched off (home, own capacity, per-vehicle lengths, last way home)"),
+                  Theorem("Rl4co.Mdcpdp.Fixed.feasible_of_run", "proved", "FULL C01 for any number of depots and any per-depot capacities under the intended current_depot rule [intended `current_depot` rule `stepF true`; the token `Params.mdcpdpDepotOnVisit` extracted from the source says which rule the code has]"),
+                  Theorem("Rl4co.Mdcpdp.Fixed.fixes_counterexample", "proved", "the as-coded counterexample instances behave correctly under the intended rule"),
+                  Theorem("Rl4co.Mdcpdp.feasible_exists", "proved", "Spec sanity: every problem with cap 0 ≥ 1 has a feasible solution"),
+                  Theorem("Rl4co.Mdcpdp.wf_generated_iff", "proved", "the instance built from the bundled generator is well-formed iff there is one depot"),
+                  Theorem("Rl4co.Mdcpdp.wf_generated_repaired", "proved", "repaired clause: one capacity entry per depot ⇒ well-formed")] if _has("Rl4co/Props/C03/MdcpdpSim.lean") else [])+[]),
               assumptions=[MD_NOTE] + ([] if _has("Rl4co/Props/C01/Mdcpdp.lean") else [NO_THM])))
 register(Unit("C02", "mdcpdp", mc.chunked(md_check_termination), drivers=["drv_mdcpdp"],
               lean_modules=_mods("Rl4co/Props/C02/Mdcpdp.lean", "Rl4co.Props.C02.Mdcpdp", "Rl4co.Spec.Mdcpdp"),
@@ -970,8 +984,13 @@ register(Unit("C02", "mdcpdp", mc.chunked(md_check_termination), drivers=["drv_m
               assumptions=[MD_NOTE] + ([] if _has("Rl4co/Props/C02/Mdcpdp.lean") else [NO_THM])))
 register(Unit("C03", "mdcpdp", mc.chunked(md_check_reward), drivers=["drv_mdcpdp"],
               lean_modules=_mods("Rl4co/Props/C03/Mdcpdp.lean", "Rl4co.Props.C03.Mdcpdp", "Rl4co.Spec.Mdcpdp")
-              + (["Rl4co.Props.C03.MdcpdpSim"] if _has("Rl4co/Props/C03/MdcpdpSim.lean") else []),
+              + (["Rl4co.Props.C03.MdcpdpSim"] if _has("Rl4co/Props/C03/MdcpdpSim.lean") else [])
+              + (["Rl4co.Props.C03.MdcpdpFixed", "Rl4co.Proofs.MdcpdpSpec"] if _has("Rl4co/Props/C03/MdcpdpFixed.lean") else []),
               theorems=_thms("Rl4co/Props/C03/Mdcpdp.lean", [
+                  Theorem("Rl4co.Mdcpdp.Fixed.reward_eq_objective_open", "proved", "FULL C03 in open mode for any number of depots (minmax, minsum, lateness) under the intended current_depot rule [intended `current_depot` rule `stepF true`; the token `Params.mdcpdpDepotOnVisit` extracted from the source says which rule the code has]"),
+                  Theorem("Rl4co.Mdcpdp.Fixed.reward_eq_obj_v1", "proved", "intended rule, close mode: the only remaining deviation from the Spec is the last way home"),
+                  Theorem("Rl4co.Mdcpdp.Fixed.sim_refines", "proved", "intended rule: the Spec simulation (all clauses but chargeLast) never fails along a run and carries the per-depot bookkeeping"),
+                  Theorem("Rl4co.Mdcpdp.objMinmax_le_objMinsum", "proved", "Spec sanity: longest per-depot length ≤ total"),
                   Theorem("Rl4co.Mdcpdp.reward_eq_objective_single_open", "proved", "single depot, open mode: reward = −objective of the problem as stated for minmax, minsum and lateness"),
                   Theorem("Rl4co.Mdcpdp.reward_eq_obj_v0", "proved", "any K, open or close: all three rewards = −(objective of the Spec variant v0) — the code deviates from the Spec by the four v0 clauses only"),
                   Theorem("Rl4co.Mdcpdp.sim_refines", "proved", "refinement: along every mask-confined run the Spec simulation (v0) never fails and carries the environment's bookkeeping"),
@@ -989,11 +1008,15 @@ register(Unit("C04", "mdcpdp", mc.chunked(md_check_batch), drivers=["drv_mdcpdp"
                   Theorem("Rl4co.Mdcpdp.pad_noop_counterexample", "proved", "¬ pad_noop_statement (close mode: the padding step adds the last way back)")]),
               assumptions=[MD_NOTE] + ([] if _has("Rl4co/Props/C04/Mdcpdp.lean") else [NO_THM])))
 register(Unit("C05", "mdcpdp", mc.chunked(md_check_completeness), drivers=["drv_mdcpdp"],
-              lean_modules=_mods("Rl4co/Props/C05/Mdcpdp.lean", "Rl4co.Props.C05.Mdcpdp", "Rl4co.Spec.Mdcpdp"),
+              lean_modules=_mods("Rl4co/Props/C05/Mdcpdp.lean", "Rl4co.Props.C05.Mdcpdp", "Rl4co.Spec.Mdcpdp")
+              + (["Rl4co.Props.C05.MdcpdpFixed"] if _has("Rl4co/Props/C05/MdcpdpFixed.lean") else []),
               theorems=_thms("Rl4co/Props/C05/Mdcpdp.lean", [
                   Theorem("Rl4co.Mdcpdp.run_of_feasible_counterexample", "proved", "¬ run_of_feasible_statement: return to the vehicle's own depot is never offered"),
                   Theorem("Rl4co.Mdcpdp.run_of_feasible_capacity_counterexample", "proved", "¬ run_of_feasible_statement: a larger capacity than depot 0's cannot be used"),
            Theorem("Rl4co.Mdcpdp.mask_eq_admits", "proved", "in every reachable state the mask is `envAdmits` evaluated on the Spec simulation's state"),
            Theorem("Rl4co.Mdcpdp.run_iff_admitsAll", "proved", "IFF: a visit list is a mask-confined run exactly when every visit is offered by envAdmits (the class the mask really admits)"),
-           Theorem("Rl4co.Mdcpdp.finished_iff", "proved", "IFF: … and it is finished exactly when every depot's vehicle was started and every customer served")]),
+           Theorem("Rl4co.Mdcpdp.finished_iff", "proved", "IFF: … and it is finished exactly when every depot's vehicle was started and every customer served")] + ([
+           Theorem("Rl4co.Mdcpdp.Fixed.run_of_feasible", "proved", "FULL C05 under the intended current_depot rule: every canonical feasible solution (any K, any per-depot capacities) is a finished mask-confined run [token Params.mdcpdpDepotOnVisit says which rule the code has]"),
+           Theorem("Rl4co.Mdcpdp.Fixed.run_iff_admitsAllX", "proved", "intended rule: the admitted class as an iff"),
+           Theorem("Rl4co.Mdcpdp.Fixed.mask_eq_admitsX", "proved", "intended rule: the mask is envAdmitsX on the Spec simulation's state (own depot, own capacity)")] if _has("Rl4co/Props/C05/MdcpdpFixed.lean") else [])),
               assumptions=[MD_NOTE] + ([] if _has("Rl4co/Props/C05/Mdcpdp.lean") else [NO_THM])))
